@@ -300,6 +300,8 @@ Lemma core_eq_set_scripts l s : core_eq s (set_scripts l s).
 Proof. unfold core_eq; repeat split. Qed.
 Lemma core_eq_set_destroying b s : core_eq s (set_destroying b s).
 Proof. unfold core_eq; repeat split. Qed.
+Lemma core_eq_set_nservers n s : core_eq s (set_nservers n s).
+Proof. unfold core_eq; repeat split. Qed.
 
 Lemma ce_cell s s' o : core_eq s s' -> cell_of s' o = cell_of s o.
 Proof. intros [_ [E _]]. unfold cell_of. rewrite E. reflexivity. Qed.
@@ -650,11 +652,13 @@ Proof. split; [constructor | intros o []]. Qed.
 Definition alloc_st (c : cell) (s : state) : state :=
   {| st_next := S (st_next s); st_cells := (st_next s, c) :: st_cells s; st_freed := st_freed s; st_lists := st_lists s;
      st_byqid := st_byqid s; st_bytmo := st_bytmo s; st_conns := st_conns s; st_tape := st_tape s;
-     st_scripts := st_scripts s; st_trace := st_trace s; st_destroying := st_destroying s |}.
+     st_scripts := st_scripts s; st_trace := st_trace s; st_destroying := st_destroying s;
+     st_nservers := st_nservers s |}.
 Definition free_st (o : obj) (s : state) : state :=
   {| st_next := st_next s; st_cells := remove_key o (st_cells s); st_freed := o :: st_freed s;
      st_lists := st_lists s; st_byqid := st_byqid s; st_bytmo := st_bytmo s; st_conns := st_conns s;
-     st_tape := st_tape s; st_scripts := st_scripts s; st_trace := st_trace s; st_destroying := st_destroying s |}.
+     st_tape := st_tape s; st_scripts := st_scripts s; st_trace := st_trace s; st_destroying := st_destroying s;
+     st_nservers := st_nservers s |}.
 Definition store_st (o : obj) (c : cell) (s : state) : state := set_cells ((o, c) :: remove_key o (st_cells s)) s.
 
 Lemma alloc_run c s : alloc c s = Ok (st_next s, alloc_st c s).
